@@ -37,16 +37,32 @@ func (s *State) Clone() *State {
 	return c
 }
 
-var allSorts = map[string]Sort{}
+// allSorts maps component names to sorts, separately for the two string modes (the sort of a string-valued component
+// differs between them).
+var allSortsNative = map[string]Sort{}
+var allSortsOpaque = map[string]Sort{}
+
+type sortRegistry struct{}
+
+var allSorts sortRegistry
+
+func (sortRegistry) m() map[string]Sort {
+	if opaqueStrings {
+		return allSortsOpaque
+	}
+	return allSortsNative
+}
+func (r sortRegistry) get(n string) (Sort, bool) { s, ok := r.m()[n]; return s, ok }
+func (r sortRegistry) set(n string, s Sort)      { r.m()[n] = s }
 
 func (s *State) Get(name string, sort Sort) *Term {
 	if t, ok := s.comps[name]; ok {
 		return t
 	}
-	if reg, ok := allSorts[name]; ok {
+	if reg, ok := allSorts.get(name); ok {
 		sort = reg // the registered (type-derived) sort wins over a sort inferred from a value
 	} else {
-		allSorts[name] = sort
+		allSorts.set(name, sort)
 	}
 	var t *Term
 	if len(s.parents) > 0 {
@@ -69,8 +85,8 @@ func (s *State) Get(name string, sort Sort) *Term {
 }
 
 func (s *State) Set(name string, t *Term) {
-	if _, ok := allSorts[name]; !ok {
-		allSorts[name] = t.Sort
+	if _, ok := allSorts.get(name); !ok {
+		allSorts.set(name, t.Sort)
 	}
 	s.comps[name] = t
 }
@@ -90,7 +106,7 @@ func MergeStates(sts []*State, conds []*Term) *State {
 		}
 	}
 	for k := range keys {
-		m.Get(k, allSorts[k])
+		m.Get(k, allSorts.m()[k])
 	}
 	nx := sts[len(sts)-1].next
 	for i := len(sts) - 2; i >= 0; i-- {
@@ -114,7 +130,7 @@ func (s *State) Havoc(names []string, tag string) {
 		if n == "next" {
 			continue
 		}
-		srt, ok := allSorts[n]
+		srt, ok := allSorts.get(n)
 		if !ok {
 			panic("Havoc of unregistered component " + n)
 		}
@@ -137,13 +153,14 @@ func (s *State) CompNames() []string {
 func fieldComp(structT types.Type, idx int) string {
 	st := structT.Underlying().(*types.Struct)
 	n := "F$" + shortKey(structT) + "." + st.Field(idx).Name()
-	if _, ok := allSorts[n]; !ok && !isStruct(st.Field(idx).Type()) {
-		allSorts[n] = ArraySort(SInt, sortOf(st.Field(idx).Type()))
+	if _, ok := allSorts.get(n); !ok && !isStruct(st.Field(idx).Type()) {
+		allSorts.set(n, ArraySort(SInt, sortOf(st.Field(idx).Type())))
 	}
 	return n
 }
 
 func shortKey(t types.Type) string {
+	t = types.Unalias(t)
 	s := types.TypeString(t, func(p *types.Package) string { return p.Name() })
 	return strings.NewReplacer(" ", "", "|", "!").Replace(s)
 }
@@ -153,8 +170,8 @@ func sortTag(s Sort) string {
 }
 
 func reg(n string, s Sort) string {
-	if _, ok := allSorts[n]; !ok {
-		allSorts[n] = s
+	if _, ok := allSorts.get(n); !ok {
+		allSorts.set(n, s)
 	}
 	return n
 }
